@@ -152,11 +152,10 @@ func init() {
 		if !found || bound == "" {
 			return fmt.Errorf("conn_id_manager.go: the queue-length comparison of connIDManager.Add was not found")
 		}
-		if boundOp != ">=" {
-			return fmt.Errorf("conn_id_manager.go: connIDManager.Add compares len(h.queue) with %q, the model assumes >=", boundOp)
-		}
 		w.P("/-- conn_id_manager.go `Add`: CONNECTION_ID_LIMIT_ERROR when `len(h.queue) >= max(enforcedQueueBound, h.connIDLimit)` -/")
 		w.P("def enforcedQueueBound : Int := %s", bound)
+		w.P("/-- conn_id_manager.go `Add`: the comparison operator is `>=` (it is %q) -/", boundOp)
+		w.P("def enforcedBoundIsGE : Bool := %v", boundOp == ">=")
 		w.P("/-- conn_id_manager.go `Add`: the bound is `max(<const>, h.connIDLimit)` (false: the constant alone) -/")
 		w.P("def enforcedBoundUsesConnIDLimit : Bool := %v", usesLimit)
 
